@@ -279,7 +279,8 @@ func run(c *core.Ctx) int {
 	}
 	// classes the property names must have been reached
 	for _, k := range []string{"cross_instance_read_after_write_global", "cross_instance_read_after_write_memory", "cross_instance_read_after_write_table",
-		"reexport_function_imported_with_type_of_another_function", "reexport_exact_type_importers", "modules_with_interleaved_import_section",
+		"indirect_rtcall_callee_sibling-instance-of-same-compiled-module", "indirect_rtcall_callee_other-module", "indirect_tcall_callee_sibling-instance-of-same-compiled-module",
+		"op_rci", "op_leaf4", "reexport_function_imported_with_type_of_another_function", "reexport_exact_type_importers", "modules_with_interleaved_import_section",
 		"capture_global-init_immutable", "capture_global-init_mutable", "capture_data-offset_mutable", "capture_elem-offset_mutable", "capture_elem-init_mutable",
 		"fail_data-oob", "fail_elem-oob", "fail_start-trap", "fail_missing", "fail_link"} {
 		if c.Counter(k) == 0 {
